@@ -35,18 +35,7 @@ Corollary C36_flag_env_config_default : forall fl flags config env i,
    forall v, f_opt (src_config config i) = Some v -> r = Some v) /\
   (f_opt (src_flag fl flags i) = None -> f_opt (src_env env i) = None -> f_opt (src_config config i) = None ->
    r = with_default (nth i SETTINGS_DEFAULT_KIND 9) (nth i SETTINGS_DEFAULT_CONST 9) None).
-Proof.
-  intros fl flags config env i Lf Le Lc Hi K D r. unfold r.
-  rewrite (resolved_option fl flags config env Lf Le Lc i Hi K).
-  assert (W : forall v, with_default (nth i SETTINGS_DEFAULT_KIND 9) (nth i SETTINGS_DEFAULT_CONST 9) (Some v) = Some v).
-  { intros v. unfold with_default. destruct (nth i SETTINGS_DEFAULT_KIND 9) as [|[[q|q|]|[q|q|]|]]; try reflexivity.
-    now contradiction D. }
-  repeat split.
-  - intros v E. rewrite E. cbn [first_some fold_right or_opt]. apply W.
-  - intros E1 v E2. rewrite E1, E2. cbn [first_some fold_right or_opt]. apply W.
-  - intros E1 E2 v E3. rewrite E1, E2, E3. cbn [first_some fold_right or_opt]. apply W.
-  - intros E1 E2 E3. now rewrite E1, E2, E3.
-Qed.
+Proof. exact flag_env_config_default. Qed.
 
 (* Boolean switches: on iff any source sets them. *)
 Theorem C36_switch_any : forall fl flags config env i,
